@@ -176,8 +176,8 @@ def handle (st : Unit) (j : Json) : Except String (Unit × Json) := do
       let n ← netlistOfJson (← j.getObjVal? "net")
       let ts ← Spydr.Proto.getArr j "ts"
       let tsn ← Spydr.Proto.natList ts
-      match composeE tsn n with
-      | .ok cs => pure (st, Json.mkObj [("ok", Json.str (String.ofList cs))])
+      match toSExp tsn n with
+      | .ok e => pure (st, Json.mkObj [("ok", Json.str (String.ofList (layoutE e))), ("clean", Json.bool e.cleanB)])
       | .error e => pure (st, Json.mkObj [("err", Json.str e)])
   | "roundtrip" =>
       -- model reader applied to the model writer's text
